@@ -1,4 +1,5 @@
 import NomtModel.Store.TraceOrderToy
+import NomtModel.Store.ConcToyLog
 /-!
 # C04 (and C03) — from the real CONCURRENT I/O trace to the crash theorems
 
@@ -19,8 +20,9 @@ This file is the bridge:
   of EVERY prefix of the concurrent execution recovers to the old or to the new state.
 * T4.6 — the negative example the monitor exists for: the fsync of `ln` begins before an `ln` write has ended, the meta
   page is written: some image is neither old nor new; the discipline rejects the trace.
-* T4.7 / T4.8 (below, from `Store/TraceOrderLemmas.lean`) — `checkOrder` accepting the real trace implies the order
-  discipline for its abstraction.
+* T4.9 — T4.5 with the rollback log and a WAL truncation before the switch-over (the clauses of T4.2c).
+* T4.7 / T4.8 (from `Store/TraceOrderLemmas.lean`, `Store/TraceOrderSim.lean`) — `checkOrder` accepting the real trace
+  implies the order discipline for its abstraction; end-to-end statement.
 -/
 namespace Nomt.C04
 open NomtDisk Nomt.Store
@@ -146,6 +148,46 @@ theorem T4_6_overlapped_fsync_breaks_atomicity :
       absOf Toy.P img ≠ absOf Toy.P CToy.d0 ∧ absOf Toy.P img ≠ CToy.newAbs) ∧
     ¬ cAll ordChk 0 (cinit CToy.d0) CToy.bad :=
   ⟨⟨CToy.badImg, CToy.bad_image, CToy.bad_image_neither⟩, CToy.bad_rejected⟩
+
+/-! ## With the rollback log and the real shape of `wal.write` -/
+
+/-- T4.9 **power-loss atomicity of a sync for the concurrent trace, including the rollback log** — T4.5 with the clauses
+of T4.2c instead of T4.1: before the meta write also a WAL truncation (`AllowedPreL'`: the real `wal.write` first sets
+the length of the WAL file to 0, trace line `SetLen wal 0 wal.write.set_len`) and appends to the rollback log beyond the
+old live range; after it also pruning of the rollback log outside the new live range.  EVERY image of EVERY prefix of the
+concurrent execution recovers — tree, hash-table view and live rollback records — to exactly the old or exactly the new
+state, and to the new state once the switch-over is durable at the end of the trace. -/
+theorem T4_9_concurrent_powerloss_atomic_with_rollback_log (L : LogParams MetaRec LogRec)
+    (d0 : Disk Content MetaRec WalRec LogRec)
+    (hinert : ∀ b, htView P d0 b = d0.pages File.fHt b)
+    (cpre crest : List (CEv Content MetaRec WalRec LogRec)) (id : Nat) (m1 : MetaRec) (w1 : WalRec)
+    (hord : cAll ordChk 0 (cinit d0) (cpre ++ CEv.effBegin id (.setMeta m1) :: crest))
+    (hcont : cAll (contChk (AllowedPreL' P L d0) (contPostL P L (crun (cinit d0) cpre).dur m1 w1)) 0 (cinit d0)
+      (cpre ++ CEv.effBegin id (.setMeta m1) :: crest))
+    (hwal : (crun (cinit d0) cpre).dur.wal = some w1)
+    (hseq : P.walSeqn w1 = P.seqn m1) :
+    (∀ cp, cp <+: cpre ++ CEv.effBegin id (.setMeta m1) :: crest →
+       ∀ img, IsCImage (crun (cinit d0) cp) img →
+         absOfL P L img = absOfL P L d0 ∨
+         absOfL P L img = (absNew P (crun (cinit d0) cpre).dur m1 w1, absLog L m1 (crun (cinit d0) cpre).dur.log)) ∧
+    (phRun 0 (cinit d0) (cpre ++ CEv.effBegin id (.setMeta m1) :: crest) = 2 →
+       ∀ img, IsCImage (crun (cinit d0) (cpre ++ CEv.effBegin id (.setMeta m1) :: crest)) img →
+         absOfL P L img = (absNew P (crun (cinit d0) cpre).dur m1 w1, absLog L m1 (crun (cinit d0) cpre).dur.log)) :=
+  conc_sync_crash_atomic_log P L d0 hinert cpre crest id m1 w1 hord hcont hwal hseq
+
+/-- non-vacuity of T4.9: `CToy.goodL` has the shape of a real commit trace — the rollback record is appended and
+fsynced, `wal.write` (thread `t12`) sets the length of the WAL to 0 and appends while a worker's write of the new root
+page is in flight, `wal` and `ln` are fsynced, then the meta write and its fsync, the lagging rollback record is pruned,
+the table page written and fsynced, the WAL truncated.  All images of all prefixes are old or new, at the end new, and
+old ≠ new. -/
+example :
+    (∀ cp, cp <+: CToy.goodL → ∀ img, IsCImage (crun (cinit CToy.d0L) cp) img →
+       absOfL Toy.P Toy.L img = absOfL Toy.P Toy.L CToy.d0L ∨ absOfL Toy.P Toy.L img = CToy.newAbsL) ∧
+    (∀ img, IsCImage (crun (cinit CToy.d0L) CToy.goodL) img → absOfL Toy.P Toy.L img = CToy.newAbsL) ∧
+    absOfL Toy.P Toy.L CToy.d0L ≠ CToy.newAbsL :=
+  have h := T4_9_concurrent_powerloss_atomic_with_rollback_log Toy.P Toy.L CToy.d0L CToy.hinertL CToy.cpreL CToy.crestL
+    14 Toy.m1 Toy.w1 CToy.goodL_ord CToy.goodL_cont CToy.hwalL Toy.hseq
+  ⟨h.1, h.2 CToy.goodL_phase, CToy.oldL_ne_newL⟩
 
 /-! ## The monitor on the real trace -/
 
